@@ -241,6 +241,9 @@ def _record_case(case):
     test.measurements.d[2] = 3
     test.measurements.d[1] = 4
     test.logger.info('hello %s', 'world')
+    # metadata written while the test runs: a new key, and a key given at definition time overwritten
+    test.test_record.metadata['part_number'] = 'pn-%d' % len(payload)
+    test.test_record.metadata['fixture'] = 'fixture-in-use'
     test.attach('blob.bin', payload)
     test.attach('t.txt', 'text data')
 
@@ -256,12 +259,15 @@ def _record_case(case):
                                                                   action=htf.PhaseResult.FAIL_SUBTEST)),
            phase_branches.BranchSequence(phase_branches.DiagnosisCondition.on_any(R.A), p2, name='br')]
   recs = []
-  t = htf.Test(*nodes)
+  t = htf.Test(*nodes, fixture='fixture-as-declared', line='L1')
   t.add_output_callbacks(recs.append)
   t.execute()
   r = recs[0]
   facts = {}
   b = r.as_base_types()
+  want_md = {'part_number': 'pn-%d' % len(payload), 'fixture': 'fixture-in-use', 'line': 'L1'}
+  facts['metadata_in_memory'] = '1' if all(r.metadata.get(k) == v for k, v in want_md.items()) else '0'
+  facts['metadata_rendered_current'] = '1' if all((b.get('metadata') or {}).get(k) == v for k, v in want_md.items()) else '0'
   for name in ('phases', 'subtests', 'branches', 'checkpoints', 'diagnoses', 'log_records', 'diagnosers'):
     facts[name] = '%d:%d' % (len(getattr(r, name)), len(b.get(name, [])) if name in b else -1)
   facts['has_log_records'] = '1' if len(r.log_records) > 0 else '0'
@@ -291,6 +297,8 @@ def _record_case(case):
       strict = False
       decoded = json.loads(text)
     facts['json_strict'] = '1' if (strict or case.get('allow_nan')) else '0'
+    facts['metadata_in_json_current'] = '1' if all((decoded.get('metadata') or {}).get(k) == v
+                                                   for k, v in want_md.items()) else '0'
     att = decoded['phases'][0]['attachments']
     facts['attachment_roundtrip'] = '1' if (base64.b64decode(att['blob.bin']['data']) == payload and
                                             base64.b64decode(att['t.txt']['data']) == b'text data') else '0'
@@ -549,7 +557,7 @@ def gen_cases(rng, tier):
   for v in [5, NAN, {'k': INF}, [1, None], 'x'] + ([] if tier == 'quick' else pool):
     for allow_nan in (False, True):
       cases.append({'kind': 'R', 'value': _spec(v), 'allow_nan': allow_nan, 'fail_sub': bool(len(cases) % 2),
-                    'size': 1 + len(cases) % 3, 'stop_sub': len(cases) % 3 == 0})
+                    'size': [1, 2, 3, 256, 257, 600][len(cases) % 6], 'stop_sub': len(cases) % 3 == 0})
   for i in range(80 if tier == 'quick' else 2000):
     r = rng.derive('lg%d' % i)
     cases.append({'kind': 'L', 'n': r.choice([1, 2, 3]), 'rseed': r.getrandbits(32)})
